@@ -296,7 +296,10 @@ class CF(object):
         return max(abs(self.re), abs(self.im))
 
     def dyadic(self):
-        return all(d & (d - 1) == 0 and d <= 2 ** 30 for d in (self.re.denominator, self.im.denominator))
+        # dyadic with at most 26 significant bits: then every product of two tracked values (and every
+        # sum of a few) is exact in float64, whatever order the implementation evaluates in
+        return all(d & (d - 1) == 0 and abs(n).bit_length() <= 26
+                   for n, d in ((self.re.numerator, self.re.denominator), (self.im.numerator, self.im.denominator)))
 
     def absr(self):
         assert self.im == 0
@@ -554,7 +557,7 @@ def vsum(xs):
 DIMS = [1, 2, 3]
 
 
-def gen(ctx, depth, dom, ran, p_bad=0.0):
+def gen(ctx, depth, dom, ran, p_bad=0.0, pw=2):
     """Random AST of an expression dom -> ran (ran int or 'F').  Nodes:
     ('leaf', Leaf) ('const', dom, c) ('zerof', dom)
     ('add'|'sub'|'mul'|'matmul'|'ptw', a, b) ('neg', a) ('pow', a, n)
@@ -573,7 +576,7 @@ def gen(ctx, depth, dom, ran, p_bad=0.0):
              'mul', 'mulc', 'cmul', 'mulc']
     if ran != 'F':
         prods += ['addv', 'vadd', 'subv', 'vsub', 'ptw']
-        if dom == ran:
+        if dom == ran and pw > 0:      # at most two nested powers: cost and magnitudes grow as n**k
             prods += ['pow', 'pow']
     k = r.choice(prods)
     d1 = depth - 1
@@ -582,7 +585,7 @@ def gen(ctx, depth, dom, ran, p_bad=0.0):
         return r.choice([m for m in DIMS + [4] if m != n])
 
     if k in ('add', 'sub', 'ptw'):
-        a = gen(ctx, d1, dom, ran, p_bad)
+        a = gen(ctx, d1, dom, ran, p_bad, pw)
         bd, br = dom, ran
         if bad:
             if r.random() < 0.5:
@@ -591,40 +594,40 @@ def gen(ctx, depth, dom, ran, p_bad=0.0):
                 br = (r.choice(DIMS) if ran == 'F' else r.choice([other_dim(ran), 'F']))
         if not bad and r.random() < 0.15:
             return (k, a, a)                     # the SAME sub-expression object used twice
-        b = gen(ctx, r.randint(0, d1), bd, br, p_bad)
+        b = gen(ctx, r.randint(0, d1), bd, br, p_bad, pw)
         return (k, a, b)
     if k == 'mul':
         mid = r.choice(DIMS)
-        a = gen(ctx, d1, mid, ran, p_bad)
-        b = gen(ctx, r.randint(0, d1), dom, other_dim(mid) if bad else mid, p_bad)
+        a = gen(ctx, d1, mid, ran, p_bad, pw)
+        b = gen(ctx, r.randint(0, d1), dom, other_dim(mid) if bad else mid, p_bad, pw)
         return (r.choice(['mul', 'mul', 'matmul']), a, b)
     if k == 'neg':
-        return ('neg', gen(ctx, d1, dom, ran, p_bad))
+        return ('neg', gen(ctx, d1, dom, ran, p_bad, pw))
     if k == 'pow':
         n = r.choice([1, 2, 2, 3, 3, 4]) if not bad else r.choice([0, -1])
-        return ('pow', gen(ctx, d1, dom, ran, p_bad), n)
+        return ('pow', gen(ctx, d1, dom, ran, p_bad, pw - 1), n)
     if k in ('addv', 'vadd', 'subv', 'vsub'):
         n = other_dim(ran) if bad else ran
-        return (k, gen(ctx, d1, dom, ran, p_bad), ctx.ivec(n))
+        return (k, gen(ctx, d1, dom, ran, p_bad, pw), ctx.ivec(n))
     if k == 'mulv':
         n = other_dim(dom) if bad else dom
-        return (r.choice(['mulv', 'mulv', 'matmulv']), gen(ctx, d1, dom, ran, p_bad), ctx.ivec(n))
+        return (r.choice(['mulv', 'mulv', 'matmulv']), gen(ctx, d1, dom, ran, p_bad, pw), ctx.ivec(n))
     if k == 'vmul':
         if ran == 'F':      # v * A never has a field range: use c * A instead
-            return ('cmul', gen(ctx, d1, dom, ran, p_bad), ctx.scalar())
+            return ('cmul', gen(ctx, d1, dom, ran, p_bad, pw), ctx.scalar())
         inner = 'F' if r.random() < 0.4 else ran
         n = other_dim(ran) if (bad and inner != 'F') else ran
-        return (r.choice(['vmul', 'vmul', 'vmatmul']), gen(ctx, d1, dom, inner, p_bad), ctx.ivec(n))
+        return (r.choice(['vmul', 'vmul', 'vmatmul']), gen(ctx, d1, dom, inner, p_bad, pw), ctx.ivec(n))
     if k in ('addc', 'cadd', 'subc', 'csub'):
-        return (k, gen(ctx, d1, dom, ran, p_bad), ctx.scalar())
+        return (k, gen(ctx, d1, dom, ran, p_bad, pw), ctx.scalar())
     if k in ('mulc', 'cmul'):
         kk = k if r.random() < 0.85 else 'matmulc'
-        return (kk, gen(ctx, d1, dom, ran, p_bad), ctx.scalar())
+        return (kk, gen(ctx, d1, dom, ran, p_bad, pw), ctx.scalar())
     if k == 'divc':
         c = r.choice([1, -1, 2, -2, 4, 0.5, -0.5, 2.0]) if not bad else 0
         if ctx.cplx and not bad and r.random() < 0.4:
             c = r.choice([1j, -1j, 2j, 1 + 1j])
-        return ('divc', gen(ctx, d1, dom, ran, p_bad), c)
+        return ('divc', gen(ctx, d1, dom, ran, p_bad, pw), c)
     raise AssertionError(k)
 
 
@@ -915,6 +918,11 @@ def flat(ctx, y):
     return [complex(u) if ctx.cplx else float(u) for u in a.tolist()]
 
 
+def kon_term(ctx):
+    """memory contract (result fresh?, in-place alias-safe?) of each leaf, indexed by l_id"""
+    return C.lst(['(%s, %s)' % (C.b(l.fresh), C.b(l.alias_safe)) for l in ctx.leaves])
+
+
 def run_case(ctx, t, npts=2):
     """Build with the real overloads, evaluate, and print the Coq case.  Returns (term, desc, key)."""
     import numpy as np
@@ -933,7 +941,7 @@ def run_case(ctx, t, npts=2):
         o, err = None, 'BOther'
     pre = 'check_cplx' if ctx.cplx else 'check_real'
     if err is not None:
-        term = '{| c_vt := vt_now; c_expr := %s; c_build := %s; c_points := [] |}' % (to_coq(ctx, t), err)
+        term = '{| c_vt := vt_now; c_kon := %s; c_expr := %s; c_build := %s; c_points := [] |}' % (kon_term(ctx), to_coq(ctx, t), err)
         return term, {'expr': src_skeleton(t), 'outcome': err, 'field': 'C' if ctx.cplx else 'R'}, \
             (err, src_skeleton(t)) if size(t) else None
     sk, name = skel(ctx, o, leafids)
@@ -972,19 +980,21 @@ def run_case(ctx, t, npts=2):
                 ip = '(Some %s)' % ctx.qs(ipv)
         out3 = flat(ctx, o(xe))                     # and once more after the in-place call
         if np.asarray(xe).tobytes() != xbytes or repr(out2) != repr(out) or repr(out3) != repr(out):
-            term = '{| c_vt := vt_now; c_expr := %s; c_build := BOther; c_points := [] |}' % to_coq(ctx, t)
+            term = '{| c_vt := vt_now; c_kon := %s; c_expr := %s; c_build := BOther; c_points := [] |}' % (kon_term(ctx), to_coq(ctx, t))
             return term, {'expr': src_skeleton(t), 'x': x, 'first': out, 'second': out2, 'after_inplace': out3,
                           'outcome': 'evaluation is not repeatable or x was modified',
                           'x_after': flat(ctx, xe)}, ('unstable', src_skeleton(t))
         if nonfinite:
             # NaN/inf (e.g. the NaN-filled `out` leaking into the result) has no rational literal:
             # report the case as failing instead of crashing
-            term = '{| c_vt := vt_now; c_expr := %s; c_build := BOther; c_points := [] |}' % to_coq(ctx, t)
+            term = '{| c_vt := vt_now; c_kon := %s; c_expr := %s; c_build := BOther; c_points := [] |}' % (kon_term(ctx), to_coq(ctx, t))
             return term, {'expr': src_skeleton(t), 'outcome': 'non-finite value or `out` not returned', 'x': x}, \
                 ('nonfinite', src_skeleton(t))
-        pts.append('{| p_x := %s; p_out := %s; p_ip := %s |}' % (ctx.qs(x), ctx.qs(out), ip))
-    term = ('{| c_vt := vt_now; c_expr := %s; c_build := BOk %s %s %s %s %s; c_points := %s |}'
-            % (to_coq(ctx, t), sk, dterm, rterm, C.b(bool(o.is_linear)), C.b(isinstance(o, Functional)),
+        shares = bool(rr != 'F' and np.shares_memory(np.asarray(y), np.asarray(xe)))
+        pts.append('{| p_x := %s; p_out := %s; p_ip := %s; p_alias := %s |}'
+                   % (ctx.qs(x), ctx.qs(out), ip, C.b(shares)))
+    term = ('{| c_vt := vt_now; c_kon := %s; c_expr := %s; c_build := BOk %s %s %s %s %s; c_points := %s |}'
+            % (kon_term(ctx), to_coq(ctx, t), sk, dterm, rterm, C.b(bool(o.is_linear)), C.b(isinstance(o, Functional)),
                C.lst(pts)))
     desc = {'expr': src_skeleton(t), 'built': name, 'is_linear': bool(o.is_linear), 'points': len(pts),
             'field': 'C' if ctx.cplx else 'R', 'space': ctx.kind}
